@@ -79,6 +79,9 @@ class TableWorld(World):
             self.s3w.s3.load_state(self._template_state)
             self.adapter.reset()
         ENV.clock = self.t_frozen if ENV.clock_mode == "FROZEN" else self.t_start
+        # per-execution setup draws its uuids / temp names as actor "setup": the counters were
+        # just reset, and re-drawing them as "main" could collide with names in the template
+        ENV.set_actor("setup")
         self.pre_handles()
         n = 1 if self.topology == "shared" else self.n_handles
         self.handles = [load_table(self.location) for _ in range(n)]
